@@ -157,6 +157,8 @@ C08_Labels(o, n, op, r) ==
 C08_NothingHidden(o, n, op, r) ==
     \A k \in Either(o, n) \cap Scope(o, n, op) :
         ("unchanged" \notin Allowed(o[k], n[k], Mode(op), op.key)) => \E c \in r : c[2] = k /\ c[1] # "unchanged"
+\* with_unknown: keys below a directory that could not be listed are labelled "unknown" - in these indexes every
+\* directory can be listed (nothing is lazy), so the option changes nothing and no such label may appear (C08_Labels)
 C08_NoUnchangedUnlessAsked(op, r) == ~op.unchanged => \A c \in r : c[1] # "unchanged"
 
 Inv_Done ==
